@@ -67,3 +67,13 @@ pub(crate) fn any_scalar_value(bytes: &'static [u8; 2]) -> LhsValue<'static> {
         _ => LhsValue::Bytes(Bytes::Borrowed(&bytes[..])),
     }
 }
+
+/// CONTRACT STUB for `<ExpectedTypeList as From<Type>>::from(ty)`: the list that contains
+/// exactly `ExpectedType::Type(ty)`, built with `insert` (the real body goes through
+/// `BTreeSet::from_iter`, whose sort CBMC cannot bound - see types/verif_kani/c08.rs).
+/// TRUSTED; no obligation reads the list.
+pub(crate) fn expected_type_list_of__contract(ty: Type) -> ExpectedTypeList {
+    let mut set = BTreeSet::new();
+    set.insert(ExpectedType::Type(ty));
+    ExpectedTypeList(set)
+}
